@@ -107,7 +107,7 @@ class Oracle:
         return pre
 
     def witness(self, ops, raising):
-        return {'ops': [op_to_json(o) for o in ops], 'raising': raising, 'lines': [op_line(o) for o in ops]}
+        return {'ops': [op_to_json(o) for o in ops], 'raising': raising, 'lines': [op_line(o) or 'decl %s %s' % (list(o[1]), o[2]) for o in ops]}
 
     def after(self, st, op, out, pre, ops, raising):
         ctx = self.ctx
